@@ -291,12 +291,15 @@ def register(engine, only_prev=None, own_prepare=False):
                 errs.DiffXOptionValueChoiceError:
                     'line_endings is not None and '
                     'line_endings not in ("dos", "unix")',
+                errs.DiffXOptionValueError:
+                    'indent is not None and indent < 0',
                 LookupError: None, UnicodeError: None, TypeError: None,
                 OverflowError: None, MemoryError: None,
                 AssertionError: None},
     )
     pc.raises_iff = [errs.DiffXContentError,
-                     errs.DiffXOptionValueChoiceError]
+                     errs.DiffXOptionValueChoiceError,
+                     errs.DiffXOptionValueError]
     engine.add(pc)
 
     def f_prepared(it, args, kw):
@@ -405,9 +408,11 @@ def register(engine, only_prev=None, own_prepare=False):
             'line_endings=prepared_le(), mimetype=mimetype')
     content('write_meta', 'meta',
             {'metadata': OneOf(SymDict(), NoneT(), Str()),
-             'encoding': opt_encoding(), 'meta_format': Box()},
+             'encoding': opt_encoding(), 'meta_format': Box(),
+             'line_endings': OneOf(NoneT(), Const('unix'), Const('dos'),
+                                   Str())},
             'encoding=encoding, format=meta_format, '
-            'length=len(prepared())'
+            'length=len(prepared()), line_endings=line_endings'
             ).ensures.append(('arg_unchanged', 'dict_unchanged(metadata)'))
     content('write_diff', 'diff',
             {'content': Box(), 'diff_type': Box(),
@@ -455,7 +460,6 @@ def register_prepare(engine, only_prev=None):
                 'inherit_encoding': Bool()},
         ghost=ghost,
         setup=snapshot_state,
-        requires=[('indent_nonneg', 'indent is None or indent >= 0')],
         loops={0: dict(
             prepare=loop_prepare, at_head=loop_head, index='_k',
             havoc=['stream.data', 'stream.pos'],
@@ -465,6 +469,9 @@ def register_prepare(engine, only_prev=None):
         )},
         ensures=[
             ('pure', 'state_unchanged(self)'),
+            # C05/C02: a block is only produced for an indentation the
+            # reader accepts
+            ('indent_valid', 'indent is None or indent >= 0'),
             ('nonempty', 'len(result[0]) > 0'),
             ('kind', 'result[1] in ("unix", "dos") and '
                      '(line_endings is None or result[1] == line_endings)'),
@@ -487,6 +494,10 @@ def register_prepare(engine, only_prev=None):
                 errs.DiffXOptionValueChoiceError:
                     'line_endings is not None and '
                     'line_endings not in ("dos", "unix") and '
+                    'state_unchanged(self)',
+                # (base class after its subclass)
+                errs.DiffXOptionValueError:
+                    'indent is not None and indent < 0 and '
                     'state_unchanged(self)',
                 LookupError: 'state_unchanged(self)',
                 UnicodeError: 'state_unchanged(self)',
